@@ -348,6 +348,9 @@ def exec_for(I, st, node):
             except ContinueExc:
                 pass
             except BreakExc:
+                if getattr(ls, "visits_all", None):
+                    st.oblige("%s.loop[%s].visits_all" % (I.short(st.frame.func), k), FALSE,
+                              meta={"kind": "loop_visits_all", "clause": "no element is skipped by `break`: " + ls.visits_all})
                 return
             finally:
                 st.frame.loop_idx = saved_idx
